@@ -50,6 +50,9 @@ fn show_parts(es: Option<usize>, parts: Vec<zarrs::array::ArrayBytes<'_>>) -> St
     format!("val {}", parts.into_iter().map(|b| show_elems(&from_array_bytes(es, b))).collect::<Vec<_>>().join("|"))
 }
 
+#[cfg(not(feature = "zasync"))]
+fn exec_async(_m: &BTreeMap<String, String>) -> String { "skip".into() }
+#[cfg(feature = "zasync")]
 fn exec_async(m: &BTreeMap<String, String>) -> String {
     use zarrs::array::{codec::CodecOptions, Array};
     use zarrs::storage::store::MemoryStore;
